@@ -499,6 +499,7 @@ def run_case_impl(w, n_ops, stream, observers=(), fixed_ops=None):
     if ORACLES.conflicts:
         raise CaseError('oracle conflict (same key, two answers)')
     env_t = w.env_term()
+    w.env_t, w.steps = env_t, steps
     body = (f'(let env := {env_t} in\n  RUN env (build_sim env {ztxt(t0)} {ztxt(delta)} {init_txt[0]} {init_txt[1]} {init_txt[2]} {init_txt[3]})\n  '
             + lst(steps) + ' ARG)')
     return body, ops, violations
@@ -507,3 +508,14 @@ def case_term(body):
     return body.replace('RUN env', 'run_case env').replace(' ARG)', ' 0%Z)')
 def diag_term(body, k):
     return body.replace('RUN env', 'fp_at env').replace(' ARG)', f' {k}%nat)')
+
+def resync_body(w, k):
+    """the case restarted at op k from the implementation's own state before op k (knife-edge rule)"""
+    sim = w.history[k]
+    ents = (sorted(sim.vehicles.values(), key=lambda v: w.it.i(v.id)), sorted(sim.stations.values(), key=lambda v: w.it.i(v.id)),
+            sorted(sim.bases.values(), key=lambda v: w.it.i(v.id)), sorted(sim.requests.values(), key=lambda v: w.it.i(v.id)))
+    txt = (lst([w.vehicle(v) for v in ents[0]]), lst([w.station(v) for v in ents[1]]), lst([w.base(v) for v in ents[2]]), lst([w.request(v) for v in ents[3]]))
+    ap = lst([w.instr(i) for _, i in sorted(sim.applied_instructions.items(), key=lambda kv: w.it.i(kv[0]))])
+    t0, delta = int(sim.sim_time), int(sim.sim_timestep_duration_seconds)
+    return (f'(let env := {w.env_t} in\n  RUN env (build_sim_at env {ztxt(t0)} {ztxt(delta)} {txt[0]} {txt[1]} {txt[2]} {txt[3]} {ap})\n  '
+            + lst(w.steps[k:]) + ' ARG)')
